@@ -353,6 +353,16 @@ def m_set(ip, args, kw, st, node):
     raise OutOfSubset(f"set({v!r})", node)
 
 
+@model("dict")
+def m_dict(ip, args, kw, st, node):
+    """dict(k=v, ...) / dict(d): a concrete-key dictionary local to the path"""
+    if not args:
+        return [(PyDict(dict(kw)), st)]
+    if len(args) == 1 and isinstance(args[0], PyDict):
+        return [(PyDict(dict(args[0].d, **kw)), st)]
+    raise OutOfSubset(f"dict({args!r})", node)
+
+
 @model("tuple")
 def m_tuple(ip, args, kw, st, node):
     if not args:
